@@ -187,6 +187,14 @@ pub fn run(ctx: &Ctx) -> i32 {
             check_case(ctx, st, &tcs, s0);
         });
     }
+    // thousands of automaton states
+    par_for(&ctx.run, if ctx.thorough { 6 } else { 2 }, |i, st| {
+        let mut rng = Rng::new(seed, 0x22_0000 + i as u64);
+        let letters: Vec<String> = "abcdefghijklmnopqrstuvwxyz".chars().map(|c| c.to_string()).collect();
+        let tcs: Vec<String> = (0..58 + 5 * i).map(|_| (0..40).map(|_| rng.pick(&letters).clone()).collect()).collect();
+        st.count("thousands_of_states_inputs");
+        check_case(ctx, st, &tcs, s0);
+    });
     let n = if ctx.thorough { 500_000 } else { 30_000 };
     let alphabets: Vec<(String, Vec<String>)> = gen::ALPHABETS.iter().map(|a| (a.to_string(), gen::alphabet(a))).collect();
     par_for(&ctx.run, n, |i, st| {
